@@ -165,6 +165,10 @@ func (e *Engine) binds(call *ast.CallExpr, fn *Func) ([]inlBind, bool) {
 	if fd, ok := fn.Node.(*ast.FuncDecl); ok && fd.Recv != nil && len(fd.Recv.List) == 1 {
 		sel, ok := ast.Unparen(call.Fun).(*ast.SelectorExpr)
 		if !ok {
+			// a method value held in a local: the receiver is the operand of the method value
+			sel, ok = e.Fn.FuncValue(call.Fun).(*ast.SelectorExpr)
+		}
+		if !ok {
 			return nil, false
 		}
 		if s := e.Fn.Info.Selections[sel]; s == nil || s.Kind() != types.MethodVal {
@@ -193,7 +197,8 @@ func (e *Engine) binds(call *ast.CallExpr, fn *Func) ([]inlBind, bool) {
 
 // inline interprets call's callee from st and returns its return exits. Panic exits of the callee
 // are handed to exit.
-func (e *Engine) inline(st *State, call *ast.CallExpr, fn *Func, callee *types.Func, exit exitFn) []inlExit {
+// mid, when given, refines every return exit inside the callee's vocabulary (before facts are copied back).
+func (e *Engine) inline(st *State, call *ast.CallExpr, fn *Func, callee *types.Func, exit exitFn, mid func(*State, *inlExit) []*State) []inlExit {
 	if _, isLit := ast.Unparen(call.Fun).(*ast.FuncLit); !isLit {
 		e.evalCalls(st, call.Fun, exit)
 	}
@@ -252,22 +257,33 @@ func (e *Engine) inline(st *State, call *ast.CallExpr, fn *Func, callee *types.F
 	if sig, ok := callee.Type().(*types.Signature); ok {
 		nres = sig.Results().Len()
 	}
+	ev := &InlineEvent{Call: call, Callee: callee, Fn: fn}
+	for _, b := range binds {
+		ev.Params = append(ev.Params, b.p)
+		ev.Args = append(ev.Args, b.a)
+	}
+	if e.cfg.OnInline != nil {
+		enter := *ev
+		enter.Enter = true
+		for _, s := range states {
+			e.cfg.OnInline(s, &enter)
+		}
+	}
 	var outs []inlExit
 	e.inlineStack = append(e.inlineStack, callee)
+	e.typeStack = append(e.typeStack, fn.Type)
 	e.run(fn.Body, states, func(s2 *State, kind ExitKind, ret *ast.ReturnStmt, at ast.Node) {
 		if kind == ExitPanic {
 			if exit != nil {
+				// the panic leaves the callee: the caller's frame is current again while its defers run
+				ts, is := e.typeStack, e.inlineStack
+				e.typeStack, e.inlineStack = ts[:len(ts)-1], is[:len(is)-1]
 				exit(s2, ExitPanic, nil, at)
+				e.typeStack, e.inlineStack = ts, is
 			}
 			return
 		}
-		s3 := s2.clone(e.Fn.Pos(call.Pos()) + " leave " + callee.Name())
-		for _, b := range binds {
-			if b.stable && b.back {
-				e.transfer(s3, e.Fn.Render(b.p), e.Fn.Render(b.a), e.Fn.objOf(b.p), b.a)
-			}
-		}
-		o := inlExit{st: s3, ret: ret}
+		o := inlExit{ret: ret}
 		switch {
 		case ret != nil && len(ret.Results) == nres:
 			o.results = ret.Results
@@ -277,8 +293,28 @@ func (e *Engine) inline(st *State, call *ast.CallExpr, fn *Func, callee *types.F
 		if nres == 0 {
 			o.results = nil
 		}
-		outs = append(outs, o)
+		mids := []*State{s2}
+		if mid != nil {
+			mids = mid(s2.clone(""), &o)
+		}
+		for _, sm := range mids {
+			s3 := sm.clone(e.Fn.Pos(call.Pos()) + " leave " + callee.Name())
+			for _, b := range binds {
+				if b.stable && b.back {
+					e.transfer(s3, e.Fn.Render(b.p), e.Fn.Render(b.a), e.Fn.objOf(b.p), b.a)
+				}
+			}
+			if e.cfg.OnInline != nil {
+				leave := *ev
+				leave.Results, leave.Return = o.results, ret
+				e.cfg.OnInline(s3, &leave)
+			}
+			oo := o
+			oo.st = s3
+			outs = append(outs, oo)
+		}
 	})
+	e.typeStack = e.typeStack[:len(e.typeStack)-1]
 	e.inlineStack = e.inlineStack[:len(e.inlineStack)-1]
 	return outs
 }
